@@ -1,7 +1,8 @@
 #!/venv/bin/python
 """C05 implementation runner: energy transfer for arrival times around the NaN boundary.
 stdin {"groups":[{"id","mode":"direct|indirect","Ei":si,"Ef":si,"L1":si,"L2":si,
-                  "units":{"tof","L1","L2","E"},"dtypes":{"tof","L1","L2","E"},"ks":[ints],"extra":[factors]}]}
+                  "units":{"tof","L1","L2","E"},"dtypes":{"tof","L1","L2","E"},"ks":[ints],"extra":[factors],
+                  "layout": "scalar" (default: L1, L2, E scalars) | "aligned" (L1, L2, E arrays along the tof dim)}]}
 For each group the harness computes, WITH THE IMPLEMENTATION'S OWN ARITHMETIC, t0 of the fixed leg in
 the tof unit/dtype, builds tof = [physical t, t0*(1+k*eps) for k in ks, t0*f for f in extra] and runs the kernel."""
 import json, sys, math
@@ -50,17 +51,30 @@ def main():
             # t0 with the implementation's own helper (falls back to the formula if the helper is gone)
             probe = sc.scalar(np.array(tphys / tof_unit_mult).astype(d['tof'])[()], unit=u['tof'], dtype=d['tof'])
             Lfix = L1 if g['mode'] == 'direct' else L2
+            # (fallback to the formula whenever the helper is gone, has another signature / return type, or returns
+            #  something that is not a positive finite time close to the formula: a changed helper must never wreck
+            #  the arrival times the property is evaluated on)
+            t0_formula = (g['L1'] if g['mode'] == 'direct' else g['L2']) * math.sqrt(mn / (2 * (g['Ei'] if g['mode'] == 'direct' else g['Ef']))) / tof_unit_mult
+            res['t0_source'] = 'helper'
             try:
                 t0 = ktof._energy_transfer_t0(E, probe, Lfix)
-                t0v = float(sc.to_unit(t0.astype('float64'), u['tof']).value)
-            except Exception:
-                t0v = (g['L1'] if g['mode'] == 'direct' else g['L2']) * math.sqrt(mn / (2 * Efix_si)) / tof_unit_mult
+                t0v = float(np.asarray(sc.to_unit(t0.astype('float64'), u['tof']).values).reshape(-1)[0])
+                if not (math.isfinite(t0v) and t0v > 0 and abs(t0v - t0_formula) <= 1e-3 * t0_formula):
+                    res['t0_source'] = f'formula (helper returned {t0v!r}, formula {t0_formula!r})'
+                    t0v = t0_formula
+            except Exception as ex:
+                res['t0_source'] = f'formula (helper unusable: {type(ex).__name__})'
+                t0v = t0_formula
+            res['t0_formula'] = t0_formula
             nd = np.dtype(d['tof'])
             eps = np.finfo(nd).eps if nd.kind == 'f' else 0.0
             vals = [tphys / tof_unit_mult] + [t0v * (1 + k * eps) for k in g['ks']] + [t0v * f for f in g['extra']]
             if nd.kind != 'f':
                 vals = [max(1, round(v)) for v in vals] + [max(1, math.floor(t0v)), math.floor(t0v) + 1]
             tofv = sc.array(dims=['t'], values=np.array(vals).astype(d['tof']), unit=u['tof'], dtype=d['tof'])
+            if g.get('layout') == 'aligned':
+                # per-element lengths and fixed energy (one entry per arrival time) instead of scalars
+                L1, L2, E = (sc.broadcast(v, sizes={'t': len(vals)}).copy() for v in (L1, L2, E))
         except Exception as ex:
             res['build_error'] = f'{type(ex).__name__}: {ex}'
             out.append(res); continue
